@@ -254,6 +254,8 @@ class World:
                         return dict(what="result shares its matrix buffer with operand " + nm), notes
             if ev["cls"] == "Chain":
                 mem = [self.get(k) for k in ev["members"]]
+                if not isinstance(res.transforms, (list, tuple)):
+                    return dict(what="the member list of the new chain is not a list (%s): it cannot be walked twice" % type(res.transforms).__name__), notes
                 if len(res.transforms) != len(mem) or any(x is not y for x, y in zip(res.transforms, mem)):
                     return dict(what="chain members differ", got=[type(t).__name__ for t in res.transforms],
                                 want=ev["members"]), notes
